@@ -147,6 +147,11 @@ type Executor struct {
 	entry      *State // entry state of the unit's top function (for old())
 	frame      *frameSpec
 	reachGuard string
+	topCon     *Contract
+	topVars    map[string]Val
+	topPkg     *types.Package
+	topName    string
+	curFrame   *Frame
 }
 
 func (x *Executor) recordWrite(comp string) {
